@@ -807,7 +807,19 @@ def replay_all(ck, kind: str, exported, variants_for, procs: int = 8) -> int:
         for scn, allowed in groups:
             jobs.append((kind, scn, allowed, variants_for(scn), extra))
     total = 0
-    for n, fails in core.parallel_map(_job, jobs, procs=procs, chunk=50):
+    # the parent holds the exported scenarios (a large heap): freeze it so that the forked workers' garbage
+    # collector does not traverse - and thereby copy - all of it (measured: 16x the CPU of a serial replay)
+    import gc
+    gc.collect()
+    gc.freeze()
+    # a fork pool costs seconds of page-fault warm-up per worker on a loaded box (measured 8-45 s per pool against
+    # ~1 ms per replayed run): small batches are replayed serially
+    nruns = sum(len(j[3]) for j in jobs)
+    try:
+        results = core.parallel_map(_job, jobs, procs=procs if nruns >= 12000 else 1, chunk=50)
+    finally:
+        gc.unfreeze()
+    for n, fails in results:
         total += n
         for f in fails:
             ck.fail(f)
